@@ -1,7 +1,9 @@
 #!/bin/bash
-# all thorough tiers under VERIF_SEED=${1:-1} (the seed `vp check` exports), evidence to scratch
+# all thorough tiers (or those named after the seed) under VERIF_SEED=${1:-1}, evidence to scratch
+# usage: tools/thorough_seed.sh [seed [PROP ...]]
 out=$(mktemp -d /tmp/verif-th-XXXXXX)
-for p in C18 C11 C17 C07 C14; do
+props="${@:2}"
+for p in ${props:-C18 C11 C17 C07 C14}; do
   r=$(VERIF_SEED=${1:-1} VERIF_EVIDENCE_DIR=$out VERIF_REPLAY_DIR=$out /venv/bin/python run_check.py $p --tier thorough 2>&1); e=$?
   echo "seed=${1:-1} $p exit=$e $(echo "$r" | grep -v '^KNOWN' | tail -1 | cut -c1-160)"
   if [ $e -ne 0 ]; then
